@@ -7,8 +7,8 @@ import time
 from .explorer import STATS
 
 ROOT = os.path.dirname(os.path.dirname(os.path.abspath(__file__)))
-EVID = os.path.join(ROOT, "evidence")
-REPLAYS = os.path.join(ROOT, "replays")
+EVID = os.environ.get("VF_EVIDENCE_DIR") or os.path.join(ROOT, "evidence")        # overridden only by tools/seed_matrix.py
+REPLAYS = os.environ.get("VF_REPLAY_DIR") or os.path.join(ROOT, "replays")
 KNOWN = os.path.join(ROOT, "known_findings.json")
 
 EXIT_OK, EXIT_VIOLATION, EXIT_HARNESS = 0, 1, 3
